@@ -55,12 +55,22 @@ class UpdateNodeAttrs(BasicAction):
 
     def _apply(self) -> None:
         """Set new attributes"""
-        for attr, value in self.new_attrs.items():
-            if value is None:
-                # the attribute was absent (e.g. when undoing the first update of a
-                # key): remove it again instead of storing None, which exporters
-                # cannot serialize
-                self.tracks.graph.nodes[self.node].pop(attr, None)
-            else:
-                self.tracks._set_node_attr(self.node, attr, value)
+        try:
+            for attr, value in self.new_attrs.items():
+                self._set(attr, value)
+        except Exception:
+            # a value that cannot be stored: put back what was already overwritten, so
+            # that the refused update leaves the node as it was
+            for attr, value in self.prev_attrs.items():
+                self._set(attr, value)
+            raise
         self.tracks.notify_annotators(self)
+
+    def _set(self, attr: str, value: Any) -> None:
+        if value is None:
+            # the attribute was absent (e.g. when undoing the first update of a
+            # key): remove it again instead of storing None, which exporters
+            # cannot serialize
+            self.tracks.graph.nodes[self.node].pop(attr, None)
+        else:
+            self.tracks._set_node_attr(self.node, attr, value)
